@@ -356,6 +356,7 @@ int main(void)
 		else if (!strcmp(tok[0], "dnsa")) op_dnsa(tok, ntok);
 		else if (!strcmp(tok[0], "topdom")) op_topdom(tok, ntok);
 		else if (!strcmp(tok[0], "qdl")) op_qdl(tok, ntok);
+		else if (!strcmp(tok[0], "rseq") && ntok == 3) printf("r=%d\n", recent_seqno(atoi(tok[1]), atoi(tok[2])));
 		else if (!strcmp(tok[0], "initusers")) op_initusers(tok, ntok, 0);
 		else if (!strcmp(tok[0], "uinit")) op_initusers(tok, ntok, 1);
 		else if (tok[0][0] == 'u') op_users(tok, ntok);
